@@ -194,8 +194,9 @@ CHECKS["C04"] = dict(
          "(order and duplicates kept, None stays None, empty stays empty) with the same state. from_dao: memo hit; else an uninitialised instance of "
          "exactly the original class is memoised before relationships are followed, scalars and relationships become constructor arguments, in-progress "
          "references are patched from the memo, the constructor runs once, alternative mappings are replaced by create_from_dao() and re-memoised. "
+         "to_dao below an alternatively mapped parent: inherited part from the parent's mapping, own part from the object, memo entry restored. "
          "ToDAOState / FromDAOState operations, AlternativeMapping.to_dao, to_dao(), is_data_column. Level 'other': mapper width is fixed (5 columns, "
-         "4 relationships), the composition of the two memo isomorphisms into the round trip is argued, DAOs below an alternatively mapped parent and "
+         "4 relationships), the composition of the two memo isomorphisms into the round trip is argued; from_dao below an alternatively mapped parent and "
          "whole graphs (1500 / 30000 random graphs with sharing, cycles, alternative mappings) are decided by the bounded driver.",
     note="Assumed: SQLAlchemy mapper model, injective id() with keep-alive, get_dao_class registry, user mappings inverse on their data; "
          "SQLAlchemy attribute instrumentation (back-population) not modelled.",
